@@ -24,6 +24,7 @@ func init() {
 			"R4 the struct scanner builds its field index from, and recurses into embedded structs with, its own complete AVP list; R5 for pointer and interface fields 'empty' is exactly IsNil(). " +
 			"R2 also: exactly one AVP is produced per marshalled value (slices: one per element). R6 no function on the Marshal / Unmarshal path writes package-level state, so concurrent calls and calls in sequence cannot influence one another. " +
 			"R2 also: the Data of the produced AVP is a grouped value built in marshal or the field converted through a reflect value of the type the dictionary prescribes, never the field used as it is. R4 also: in the field walkers the recursion into an embedded struct is conditioned on nothing but anonymous field / struct kind / no tag. R7: no reflect.ValueOf on that path is applied to a value that already is a reflect.Value. R6 also: no append on the Marshal path has as its first argument a slice that can be one taken from the caller's struct. " +
+			"R4 also: the field walkers flatten a field into its parent (recursion on Value.Field(n)) only under a condition that establishes StructField.Anonymous and an empty tag — directly, through an && value or through a predicate helper; no AVP list on the path is reordered by an unstable sort. R1 reads table entries written reflect.TypeOf(T(zero)) as well as reflect.TypeOf((*T)(nil)).Elem(). " +
 			"NOT decided (not applicable to static analysis): that Unmarshal∘Marshal is the identity over field shapes and values — reflection-driven, value-level behaviour that only execution can settle; parseAvpTag's string handling.",
 		Rules: map[string]string{
 			"R1": "marshal's type switch is exhaustive over datatype.Available and each case targets the type whose Type() is the case constant",
@@ -124,6 +125,9 @@ func runC18(c *Ctx) {
 					}
 					if p, ok := mi.X.Type().(*types.Pointer); ok && cases[ks] == nil {
 						cases[ks] = p.Elem()
+					} else if flow.TypePkgIs(mi.X.Type(), pkgDatatype) && cases[ks] == nil {
+						// reflect.TypeOf(datatype.T(zero)): the type of the value itself
+						cases[ks] = mi.X.Type()
 					}
 				}
 			}
@@ -160,13 +164,18 @@ func runC18(c *Ctx) {
 				cases[ks] = nil
 				// value: Elem() of TypeOf(MakeInterface((*T)(nil)))
 				v := e.Value
+				viaElem := false
 				if call, ok := v.(*ssa.Call); ok && call.Call.IsInvoke() && call.Call.Method.Name() == "Elem" {
 					v = call.Call.Value
+					viaElem = true
 				}
 				if call, ok := v.(*ssa.Call); ok && flow.IsCallTo(call, "reflect", "", "TypeOf") {
 					if mi, ok := call.Call.Args[0].(*ssa.MakeInterface); ok {
-						if p, ok := mi.X.Type().(*types.Pointer); ok {
+						if p, ok := mi.X.Type().(*types.Pointer); ok && viaElem {
 							cases[ks] = p.Elem()
+						} else if !viaElem {
+							// reflect.TypeOf(datatype.T(zero)): the type of the value itself
+							cases[ks] = mi.X.Type()
 						}
 					}
 				}
@@ -698,6 +707,38 @@ func (c *Ctx) c18Unmarshal() {
 			if l == nil {
 				continue
 			}
+			// the converse of the rule below: the recursion that flattens a field into its parent is made only for
+			// an anonymous field without a tag (a tagged embedded struct is a grouped AVP of its own)
+			fieldArg := false
+			for _, a := range call.Call.Args {
+				if fc, isCall := flow.Peel(a).(*ssa.Call); isCall && flow.IsCallTo(fc, "reflect", "Value", "Field") {
+					fieldArg = true
+				}
+			}
+			for _, p := range f.Params {
+				if flow.TypeIs(p.Type(), pkgDict, "AVP") {
+					fieldArg = false // the per-field marshaller recursing into a grouped AVP's members, not a flattening
+				}
+			}
+			if fieldArg {
+				anon, untagged := false, false
+				for _, g := range flow.Guards(call) {
+					if !l.Blocks[g.If.Block()] {
+						continue
+					}
+					a, u := c.c18EmbFacts(g.If.Cond, g.Taken, 0)
+					anon, untagged = anon || a, untagged || u
+				}
+				key := fname(f) + ":flattens-only-untagged-anonymous-fields"
+				switch {
+				case !anon:
+					r.Fail("R4", key, c.pos(call), "the field loop recurses into a field's struct without testing StructField.Anonymous: named struct fields are flattened into their parent")
+				case !untagged:
+					r.Fail("R4", key, c.pos(call), "the recursion that flattens an embedded struct into its parent is not conditioned on the field having no tag: an embedded struct that carries an avp tag is a grouped AVP, but Marshal now emits its members at the outer level and Unmarshal fills it from the outer level")
+				default:
+					r.Ok("R4", key, c.pos(call), "the flattening recursion is reached only for an anonymous field whose tag is empty")
+				}
+			}
 			// is this the embedded-struct recursion? it is guarded by the Anonymous flag of a StructField
 			isEmb := false
 			for _, g := range flow.Guards(call) {
@@ -1110,6 +1151,35 @@ func (c *Ctx) c18NoSharedState() {
 		if wrapped == 0 {
 			r.Ok("R7", "marshal-path:reflect-values-wrapped-once", "-", fmt.Sprintf("%d reflect.ValueOf calls on the Marshal / Unmarshal path, none applied to a reflect.Value", n))
 		}
+		// R4 also: the AVPs of one code reach a slice field in message order — nothing on the path reorders an
+		// AVP list with a sort that does not keep equal elements in place
+		reordered := 0
+		for _, f := range fs {
+			for _, ci := range flow.CallInstrs(f) {
+				o := flow.CalleeObj(ci)
+				if o == nil || o.Pkg() == nil || len(ci.Common().Args) == 0 {
+					continue
+				}
+				unstable := o.Pkg().Path() == "sort" && (o.Name() == "Slice" || o.Name() == "Sort") ||
+					o.Pkg().Path() == "slices" && (o.Name() == "Sort" || o.Name() == "SortFunc")
+				if !unstable {
+					continue
+				}
+				a := ci.Common().Args[0]
+				if mi, ok := a.(*ssa.MakeInterface); ok {
+					a = mi.X
+				}
+				sl, ok := a.Type().Underlying().(*types.Slice)
+				if !ok || !flow.TypeIs(sl.Elem(), pkgDiam, "AVP") {
+					continue
+				}
+				reordered++
+				r.Fail("R4", fmt.Sprintf("%s:avp-list-sorted-unstably#%d", fname(f), reordered), c.pos(ci), "an AVP list on the Unmarshal path is sorted with "+o.Pkg().Name()+"."+o.Name()+", which does not keep equal elements in their order: repeated AVPs of one code can reach a slice field in another order than they have in the message")
+			}
+		}
+		if reordered == 0 {
+			r.Ok("R4", "marshal-path:avp-lists-keep-message-order", "-", "no AVP list on the Marshal / Unmarshal path is reordered by an unstable sort")
+		}
 	}
 	bad := 0
 	isGlobalAddr := func(v ssa.Value) *ssa.Global {
@@ -1241,4 +1311,102 @@ func c18EmbeddedGuardOK(cond ssa.Value) string {
 		}
 	}
 	return short(cond.String(), 50)
+}
+
+// c18EmbFacts: what the branch condition cond, taken or not, establishes about a reflect.StructField: that it is
+// anonymous, that its tag is empty. Follows negation, an && evaluated as a value, and a package-local predicate
+// helper (what holds at every return that can yield true).
+func (c *Ctx) c18EmbFacts(cond ssa.Value, taken bool, depth int) (anon, untagged bool) {
+	if depth > 3 {
+		return false, false
+	}
+	v, neg := flow.Cond(cond, taken)
+	if tn, fld, _, ok := flow.FieldOf(v); ok && tn == "StructField" && fld == "Anonymous" {
+		return !neg, false
+	}
+	if rl, ok := condRel(cond, taken); ok {
+		isTag := func(x ssa.Value) bool {
+			x = flow.Peel(x)
+			if tn, fld, _, ok := flow.FieldOf(x); ok && tn == "StructField" && fld == "Tag" {
+				return true
+			}
+			// Tag.Get(key) / the value of Tag.Lookup(key)
+			if ex, isEx := x.(*ssa.Extract); isEx {
+				x = ex.Tuple
+			}
+			if call, isCall := x.(*ssa.Call); isCall {
+				if o := flow.CalleeObj(call); o != nil && o.Pkg() != nil && o.Pkg().Path() == "reflect" && (o.Name() == "Get" || o.Name() == "Lookup") && len(call.Call.Args) > 0 {
+					tn, fld, _, ok := flow.FieldOf(flow.Peel(call.Call.Args[0]))
+					return ok && tn == "StructField" && fld == "Tag"
+				}
+			}
+			return false
+		}
+		for _, pr := range [][2]ssa.Value{{rl.a, rl.b}, {rl.b, rl.a}} {
+			a, b := pr[0], pr[1]
+			if x, isLen := builtinOf(a, "len"); isLen && isTag(x) && isZeroConst(b) && (rl.op == token.EQL || rl.op == token.LEQ && a == rl.a || rl.op == token.GEQ && a == rl.b) {
+				return false, true
+			}
+			if str, isStr := flow.ConstString(b); isStr && str == "" && isTag(a) && rl.op == token.EQL {
+				return false, true
+			}
+		}
+		return false, false
+	}
+	if neg {
+		return false, false
+	}
+	switch y := v.(type) {
+	case *ssa.Phi:
+		// a && b as a value: true only when the last operand was, under the conditions that led to evaluating it
+		var last ssa.Value
+		var from *ssa.BasicBlock
+		n := 0
+		for i, e := range y.Edges {
+			if k, isK := e.(*ssa.Const); isK && k.Value != nil && k.Value.String() == "false" {
+				continue
+			}
+			last, from = e, y.Block().Preds[i]
+			n++
+		}
+		if n != 1 {
+			return false, false
+		}
+		anon, untagged = c.c18EmbFacts(last, true, depth+1)
+		for _, g := range flow.Guards(from.Instrs[len(from.Instrs)-1]) {
+			a, u := c.c18EmbFacts(g.If.Cond, g.Taken, depth+1)
+			anon, untagged = anon || a, untagged || u
+		}
+		return anon, untagged
+	case *ssa.Call:
+		h := flow.StaticCallee(y)
+		if h == nil || h.Blocks == nil || !c.P.IsLibrary(h) || h.Signature.Results().Len() != 1 {
+			return false, false
+		}
+		first := true
+		flow.Instrs(h, func(in ssa.Instruction) {
+			ret, ok := in.(*ssa.Return)
+			if !ok || len(ret.Results) != 1 {
+				return
+			}
+			if k, isK := ret.Results[0].(*ssa.Const); isK && k.Value != nil && k.Value.String() == "false" {
+				return
+			}
+			a, u := false, false
+			if _, isK := ret.Results[0].(*ssa.Const); !isK {
+				a, u = c.c18EmbFacts(ret.Results[0], true, depth+1)
+			}
+			for _, g := range flow.Guards(ret) {
+				a2, u2 := c.c18EmbFacts(g.If.Cond, g.Taken, depth+1)
+				a, u = a || a2, u || u2
+			}
+			if first {
+				anon, untagged, first = a, u, false
+			} else {
+				anon, untagged = anon && a, untagged && u
+			}
+		})
+		return anon, untagged
+	}
+	return false, false
 }
